@@ -40,6 +40,11 @@ fn main() {
     };
     let id: &'static str = Box::leak(args[1].clone().into_boxed_str());
     let ctx: &'static Ctx = Box::leak(Box::new(Ctx::new(id, tier)));
+    // machinery self-test (never set by the registered commands): die the way a stack overflow or a
+    // double panic in library code would, so that the ./check wrapper's handling can be exercised
+    if std::env::var("VERIF_INJECT_MAIN").as_deref() == Ok("abort") {
+        std::process::abort();
+    }
     let code = run_check(id, ctx);
     std::process::exit(code);
 }
